@@ -358,6 +358,8 @@ def _tpl(t):
 def gen_text():
     so, ff, sp = tr_sort_mesh(), tr_find_facets(), tr_split()
     tri, line, tet, sec = tr_adaptive_tri(), tr_adaptive_line(), tr_adaptive_tet(), tr_second()
+    from .c12_src import tr_refined
+    tr_refined()      # Mesh.refined: the adaptive branch normalises the selection (bool mask -> indices, empty -> int32); fail closed
     L = ['(* GENERATED by vlib/c13_src.py from skfem/mesh/mesh_tri_1.py, mesh_line_1.py, mesh_tet_1.py — do not edit *)',
          'From Coq Require Import List Arith Bool.', 'Import ListNotations.',
          'Require Import Model.C12_Refine Model.C13_Adaptive.', 'Local Open Scope nat_scope.', '']
